@@ -148,6 +148,39 @@ def run(tier, seed, replay):
                             "observed": "rustc: opaque form is %s, source is not" % marker})
                         violations.append(("input", "%s gains %s for payload (Send=%d,Sync=%d)" % (m["name"], marker, ps, py), rp, False))
         stats["cells_gaining_a_marker_per_rustc"] = gained
+        # ---- monitor 2: a container / object / group built around an instance handle is no more thread-safe than that handle (before any erasure)
+        base_markers = {}
+        for rr, meta_row in zip(rust_rows, rows):
+            idx, ps, py, app, ss, sy, ts, ty = rr
+            m = g["meta"][idx]
+            if " @ " not in m["name"]:
+                base_markers[(m["name"], ps, py)] = (ss, sy, meta_row["src"])
+        wrapped_gain = 0
+        for rr, meta_row in zip(rust_rows, rows):
+            idx, ps, py, app, ss, sy, ts, ty = rr
+            m = g["meta"][idx]
+            if " @ " not in m["name"]:
+                continue
+            base = base_markers.get((m["name"].split(" @ ", 1)[1], ps, py))
+            if base is None:
+                continue
+            for marker, c_has, h_has in (("Send", ss, base[0]), ("Sync", sy, base[1])):
+                if c_has and not h_has:
+                    wrapped_gain += 1
+                    if len(violations) < 3:
+                        need = "need_send" if marker == "Send" else "need_sync"
+                        prog = ("// compiles against /repo/cglue: the container is %s although the instance handle it is built around is not\n"
+                                "#![allow(dead_code, unused_imports)]\nuse cglue::prelude::v1::*; use cglue::*; use cglue::arc::*; use cglue::boxed::*; use cglue::forward::*; use cglue::trait_group::*;\n"
+                                "%s\npub struct NotSendButSync(std::sync::MutexGuard<'static, u32>);\nfn need_send<T: Send>() {}\nfn need_sync<T: Sync>() {}\n"
+                                "type Handle = %s;\ntype Container = %s;\nfn main() { %s::<Container>(); /* %s::<Handle>() does not compile */ }\n"
+                                % (marker, defs, base[2], meta_row["src"], need, need))
+                        rp = vlib.write_replay(PROP, seed, tier, "input", {
+                            "case": {"rule": m["name"], "payload_class": {"Send": bool(ps), "Sync": bool(py)}, "marker_gained": marker,
+                                     "instance_handle": base[2], "container_type": meta_row["src"]},
+                            "program": prog, "observed": "rustc: the container is %s, its instance handle is not" % marker})
+                        violations.append(("input", "%s: the container %s is %s for payload (Send=%d,Sync=%d) although its instance handle %s is not"
+                                           % (m["name"], meta_row["src"], marker, ps, py, base[2]), rp, False))
+        stats["containers_more_thread_safe_than_their_handle"] = wrapped_gain
         if seen_known:
             kf = [f for f in vlib.known_findings(PROP) if f.get("status") == "known"]
             for f in kf:
